@@ -194,4 +194,20 @@ def obligations(tier):
                         'functions': ['PyCdlib.add_hard_link', 'PyCdlib.rm_hard_link', 'PyCdlib.rm_file', 'PyCdlib._add_hard_link_to_inode',
                                       'PyCdlib._rm_dr_link', 'PyCdlib._rm_udf_link', 'PyCdlib._rm_file_inodes', 'PyCdlib._finish_remove'],
                         'samples': [(0, 1), (2049, 2049)], 'stubs': ['M_rand', 'constant clock', 'Span file data']})
+    # C07.b: unlinking one name of a multiply-linked file AFTER RE-OPEN (link counts rebuilt by the parser): the harness is C02's open_edit
+    # (master, open, edit, master, open; the other names must still resolve to the same extent and length)
+    from vf.props import C02
+    for ob in C02.obligations(tier):
+        ed = ob['params'].get('edit')
+        if ob['func'] == 'open_edit' and ed in ('rm_udf_link', 'rm_link'):
+            ob = dict(ob)
+            ob['name'] = ob['name'].replace('C02.b/', 'C07.b/reopened_')
+            obs.append(ob)
+    if tier == 'quick':
+        c = skel.cfg_of(3, None, None, False, False)
+        obs.append({'name': 'C07.b/reopened_rm_link/%s' % skel.cfg_name(c), 'module': 'vf.props.C02', 'func': 'open_edit',
+                    'params': {'cfg': c, 'edit': 'rm_link', 'fixed': [0, 2049]}, 'cond_timeout': 1500, 'path_timeout': 400,
+                    'bounds': 'gen-0 history (3 files, directory, hard link); edit rm_link after re-open; l0 in [0,6144], l1 = 0, l2 = 2049',
+                    'functions': ['PyCdlib.open_fp', 'PyCdlib._walk_directories', 'PyCdlib.rm_hard_link', 'PyCdlib._rm_dr_link', 'PyCdlib.write_fp'],
+                    'samples': [(0, 2048, 2049)], 'stubs': ['M_struct', 'M_out', 'M_image', 'M_rand', 'constant clock']})
     return obs
